@@ -203,7 +203,7 @@ func (vc *VC) copyOp(st *State, d, s Val, dtype, stype types.Type) Val {
 // ---------- Go-coded models of library functions ----------
 
 type modelFn func(vc *VC, fx *FuncCtx, st *State, fn *ssa.Function, args []Val, rt types.Type, instr ssa.Instruction) Val
-type invokeFn func(vc *VC, fx *FuncCtx, st *State, args []Val, rt types.Type) Val
+type invokeFn func(vc *VC, fx *FuncCtx, st *State, args []Val, rt types.Type) (Val, bool)
 
 var builtinModels map[string]modelFn
 var invokeModels = map[string]invokeFn{}
